@@ -188,7 +188,7 @@ def gen_b(draw, sc, env, d):
         (3, isinst),
         (1, lambda: ["cmp", [gen_s(draw, sc, env, d1), gen_s(draw, sc, env, d1)], [draw(st.sampled_from(["==", "==", "!="]))]]),
         (1, lambda: ["bin", draw(st.sampled_from(["&", "|", "^"])), gen_b(draw, sc, env, d1), gen_b(draw, sc, env, d1)]),
-        (1, lambda: call(draw(st.sampled_from(["any", "all"])),
+        (2, lambda: call(draw(st.sampled_from(["any", "all"])),
                          ["list", [gen(draw, draw(st.sampled_from(["i", "b"])), sc, env, d1) for _ in range(draw(st.integers(0, 3)))]])),
         (2, lambda: ["ife", gen_c(draw, sc, env, d1), gen_b(draw, sc, env, d1), gen_b(draw, sc, env, d1)]),
     ]
@@ -393,8 +393,10 @@ def gen_D(draw, sc, env, d):
         keys = draw(st.lists(st.sampled_from(KEYS), max_size=3, unique=True))
         items = [[lit(k), gen_i(draw, sc, env, dd)] for k in keys]
         dv = names_of(sc, "D")
-        if dv and draw(st.integers(0, 2)) == 0:
-            items.insert(draw(st.integers(0, len(items))), ["dstar", var(draw(st.sampled_from(dv)))])
+        if draw(st.integers(0, 3)) == 0:
+            inner = var(draw(st.sampled_from(dv))) if dv and draw(st.booleans()) else [
+                "dict", [[lit(k), lit(draw(SMALL))] for k in draw(st.lists(st.sampled_from(KEYS), max_size=2, unique=True))]]
+            items.insert(draw(st.integers(0, len(items))), ["dstar", inner])
         return ["dict", items]
 
     leaves = [(2, lambda: literal(0))]
@@ -550,7 +552,7 @@ def gen_factory(draw, env):
     if draw(st.integers(0, 2)) == 0:
         inner_ps.append(["y", "n", gen_i(draw, osc, env, 1)])
     isc = {**osc, **sig_scope(inner_ps)}
-    nl = ["n"] if draw(st.integers(0, 2)) == 0 else []
+    nl = ["n"] if draw(st.booleans()) else []
     form = draw(st.integers(0, 2))
     if form == 0:
         body = [["def", "inner", inner_ps, nl, [["return", gen_i(draw, isc, env, 2)]]], ["return", var("inner")]]
@@ -1115,7 +1117,7 @@ def program(draw):
         defs.append(["const", n, lit(v)])
     for _ in range(draw(st.integers(0, 2))):
         defs.append(gen_func(draw, env))
-    for _ in range(draw(st.sampled_from([0, 0, 1]))):
+    for _ in range(draw(st.sampled_from([0, 1]))):
         defs.append(gen_factory(draw, env))
     for _ in range(draw(st.sampled_from([0, 1, 2, 2, 3, 3]))):
         defs.append(gen_class(draw, env))
